@@ -142,7 +142,7 @@ def points(plan, res, tier, rng):
 def _entry_tuples(res):
     out = set()
     for e in res.of('entry'):
-        kv = e.kv(); out.add((kv['sp'], kv['csp'], kv['cgd'], kv['ecd'], kv['es'], kv['chb']))
+        kv = e.kv(); out.add((kv['sp'], kv['csp'], kv['cgd'], kv['ecd'], kv['es'], kv['chb'], kv.get('lv', '0')))
     return out
 
 
@@ -169,7 +169,7 @@ def check_base(plan, res):
 
 
 def _which(tuples):
-    names = ('sp', 'csp', 'cgstack', 'errctx', 'errstate', 'current_heart_beat')
+    names = ('sp', 'csp', 'cgstack', 'errctx', 'errstate', 'current_heart_beat', 'last_verb')
     diff = set()
     for t in tuples[1:]:
         for a, b, n in zip(tuples[0], t, names):
@@ -190,7 +190,7 @@ def check_point(plan, res, info):
     base = set(tuple(t) for t in info['entry'])
     extra = sorted(ent - base)
     if extra:
-        v.append(Violation(PROP, 'entry', 'after an error injected at %s the driver-entry registers (sp,csp,cgstack,errctx,errstate,chb) were %s, fault-free %s' % (fired[0].rest, extra, sorted(base)),
+        v.append(Violation(PROP, 'entry', 'after an error injected at %s the driver-entry registers (sp,csp,cgstack,errctx,errstate,chb,last_verb) were %s, fault-free %s' % (fired[0].rest, extra, sorted(base)),
                            PROP + '/entry/not-restored-' + _which(sorted(base)[:1] + extra)))
     if _recs(res, 'CATCHBAD'):
         v.append(Violation(PROP, 'catch-frame', 'frame state differs after catch: ' + _recs(res, 'CATCHBAD')[0], PROP + '/catch/frame-not-restored'))
